@@ -13,7 +13,7 @@ What one run does (DESIGN §2.4):
      input and prints `VIOLATION property=<id> replay=<path>` (ending in
      no-failing-input-found when only a proof obligation / the correspondence broke).
 """
-import fcntl, glob, hashlib, json, os, re, shutil, subprocess, sys, time
+import fcntl, glob, hashlib, json, math, os, re, shutil, subprocess, sys, time
 
 ROOT = os.path.dirname(os.path.dirname(os.path.abspath(__file__)))
 REPO = os.environ.get("VERIF_REPO", "/repo")
@@ -763,8 +763,8 @@ ASSUMPTIONS = [
 def spread_check(res):
     """C15, second half: over many evictions no resident position is immune and none is always chosen.
     The thresholds are so loose that a correct uniform source fails with probability < 1e-9:
-    with n >= 60*cap evictions at capacity cap, every slot must be chosen at least once
-    (P(miss) <= cap*(1-1/cap)^n) and, for cap >= 2, none more than 90% of the time."""
+    with n >= cap*(ln cap + 21) evictions at capacity cap, every slot must be chosen at least once
+    (P(miss) <= cap*(1-1/cap)^n); with n >= 60*cap none less than an eighth of its share; none more than 90% of the time."""
     out = []
     # one cache instance at a time: 40 or more evictions of one engine that fall on one slot more than 90% of the time
     # (a uniform source does that with probability < 1e-20 for two slots, less for more)
@@ -776,11 +776,15 @@ def spread_check(res):
     for cap, h in sorted(res["extra"].get("victim_slot_histogram", {}).items()):
         cap = int(cap)
         n = sum(h)
-        if n < 60 * cap or cap < 2:
+        # a uniform source leaves some slot unchosen with probability <= cap*(1-1/cap)^n < 1e-9 once n >= cap*(ln cap + 21)
+        if cap < 2 or n < cap * (math.log(cap) + 21):
             continue
         for r, c in enumerate(h):
             if c == 0:
                 out.append("capacity %d: slot %d was never the victim in %d evictions (histogram %s)" % (cap, r, n, h))
+            elif n >= 60 * cap and c * 8 * cap < n:
+                # expected n/cap >= 60; a count below an eighth of that has probability < exp(-(7/8)^2*60/2) ~ 1e-10 (Chernoff)
+                out.append("capacity %d: slot %d was the victim in only %d of %d evictions, expected about %d (histogram %s)" % (cap, r, c, n, n // cap, h))
             if c > 0.9 * n:
                 out.append("capacity %d: slot %d was the victim in %d of %d evictions (histogram %s)" % (cap, r, c, n, h))
     return out
